@@ -6,6 +6,7 @@ PROPS = {}
 PROPS["C07"] = {
     "title": "Result codecs round-trip every result and follow the documented layout",
     "units": [{"name": "codec", "pkg": "lib", "run": "^TestC07", "scale_thorough": 2},
+              {"name": "sizes", "pkg": "lib", "run": "^TestSizes", "shards_quick": 4, "shards_thorough": 8},
               {"name": "encodecmd", "pkg": "main", "run": "^TestC08EncodeChain", "env": {"VERIF_AS": "C07"}, "shards_quick": 2, "shards_thorough": 8}],
     "rule": "rapid draws sequences of 0..12 heterogeneous vegeta.Result values (fields enumerated by reflection; "
             "hostile UTF-8 text without CR-LF pairs, boundary-weighted integers, ns timestamps 1970-2200 in assorted "
@@ -181,6 +182,7 @@ PROPS["C19"] = {
 PROPS["C09"] = {
     "title": "A truncated result stream decodes to a clean prefix",
     "units": [{"name": "truncation", "pkg": "lib", "run": "^TestC09", "scale_thorough": 2},
+              {"name": "sizes", "pkg": "lib", "run": "^TestSizes", "env": {"VERIF_AS": "C09"}, "shards_quick": 4, "shards_thorough": 8},
               {"name": "encodecmd", "pkg": "main", "run": "^TestC09", "shards_quick": 2, "shards_thorough": 8}],
     "rule": "rapid draws streams of 1..25 heterogeneous results (C07 generator, one in eight with bodies up to 100 KiB), "
             "a recording writer notes the byte offset after each Encode call; gob and JSON streams are cut at EVERY byte "
@@ -201,6 +203,7 @@ PROPS["C09"] = {
 PROPS["C08"] = {
     "title": "Format auto-detection and transcoding never lose, duplicate or alter results",
     "units": [{"name": "detect", "pkg": "lib", "run": "^TestC08", "scale_thorough": 4},
+              {"name": "sizes", "pkg": "lib", "run": "^TestSizes", "env": {"VERIF_AS": "C08"}, "shards_quick": 4, "shards_thorough": 8},
               {"name": "encodecmd", "pkg": "main", "run": "^TestC08", "scale_thorough": 4}],
     "rule": "rapid draws streams of 1..21 heterogeneous results whose first record differs from the rest (one in ten "
             "with a first record of 64..300 KiB, larger than every I/O buffer) in each encoding, read through a chunking "
